@@ -223,6 +223,11 @@ def rule_advance(facts, rep):
     rep.check(ok_psc, "advance", b["path"], "perform", "perform_state_change(self, performer, state, action, byte)", loc(b))
 
 
+def nm_all_nodes(root):
+    import norm
+    return norm.all_nodes(root)
+
+
 def rule_order(facts, rep):
     """Case-wise decision of perform_state_change: for every (old state, target state, action is Nop or not) the ordered effects
     are read off the one structural path that is feasible for that case — however the function spells its branches (match with a
@@ -239,10 +244,20 @@ def rule_order(facts, rep):
     states = list(vt500.STATES)
     if "Anywhere" not in states:
         states = states + ["Anywhere"]
+    # the body can only tell apart the states it names (in a pattern or a comparison): those, the states with an entry / exit
+    # action in the specification, and one representative of all the others, are the cases
+    named = set()
+    for n in nm_all_nodes(b["hir"]):
+        pth = n.get("path") if n.get("k") in ("def", "ppath") else None
+        if isinstance(pth, str) and pth.startswith(cp.STATE + "::"):
+            named.add(pth.split("::")[-1])
+    interesting = named | set(vt500.EXIT_ACTIONS) | set(vt500.ENTRY_ACTIONS) | {"Anywhere"}
+    others = [x for x in states if x not in interesting]
+    cases = [x for x in states if x in interesting] + others[:1]
     n_cases = 0
     bad = {}
-    for old in states:
-        for new in states:
+    for old in cases:
+        for new in cases:
             for act in ("Nop", "Print"):
                 n_cases += 1
                 cur_state = [old]     # self.state changes when the assignment is passed; conditions are read before it in every accepted form
